@@ -247,6 +247,34 @@ def check_inline_silent(repo: Repo, where: str) -> tuple[int, list[tuple[str, st
                     bad.append((f"inlines {why}", f"{desc} is replaced by the rule's body"))
                 elif res is not body and res is not ref:
                     bad.append(("returns neither the reference nor the rule's body", f"{desc}: returns {res!r}"))
+    # alias chains and alias cycles (legal grammars until they are parsed with: a = _{ b }, b = _{ a }): the pass must
+    # come back, and with something that is still a reference into the cycle or a body of it
+    from .ordabs import Unsupported
+
+    SIL = bits["SILENT"]
+    tables = {
+        "a = _{ b }, b = _{ \"x\" } (a chain)": {"a": ("b", SIL), "b": (None, SIL)},
+        "a = _{ a } (self reference)": {"a": ("a", SIL)},
+        "a = _{ b }, b = _{ a } (a cycle of two)": {"a": ("b", SIL), "b": ("a", SIL)},
+        "a = _{ b }, b = _{ c }, c = _{ a } (a cycle of three)": {"a": ("b", SIL), "b": ("c", SIL), "c": ("a", SIL)},
+    }
+    for desc, tab in tables.items():
+        n += 1
+        rules = {name: cm.new("Rule", name, cm.new("Identifier", tgt) if tgt else cm.new("String", "x"), mod) for name, (tgt, mod) in tab.items()}
+        ref = cm.new("Identifier", "a")
+        saved_steps = cm.max_steps
+        cm.max_steps = 40000  # a two-rule table needs a few hundred steps
+        try:
+            fn(ref, rules)
+        except ModelRaise as err:
+            bad.append(("inline_silent_rules raises", f"{desc}: raises {err}"))
+        except Unsupported as err:
+            if "does not terminate" in str(err):
+                bad.append(("inline_silent_rules does not come back on a table of silent aliases", f"{desc}: no result within 40000 evaluation steps"))
+            else:
+                raise
+        finally:
+            cm.max_steps = saved_steps
     n += 1
     ref = cm.new("Identifier", "nowhere")
     try:
